@@ -102,7 +102,7 @@ def sessions(ctx):
         caught[d] = r.violated
         if not r.violated:
             raise vf.Infra("deviation %s not detected by the counter invariants" % d)
-    runs = [(1, 4, 3, 4), (2, 4, 3, 4)] if quick else [(1, 5, 4, 8), (2, 5, 4, 8), (3, 5, 4, 8), (0, 5, 2, 6)]
+    runs = [(1, 4, 3, 4), (2, 4, 3, 4)] if quick else [(1, 5, 4, 8), (2, 5, 4, 8), (3, 5, 4, 8), (0, 4, 2, 5)]
     tot = {"events": 0, "traces": 0, "streams": {}, "over": 0}
     sample = None
     for maxs, threads, rounds, streams in runs:
